@@ -397,6 +397,36 @@ def _run(case, out, rig, axolotl):
             out.label("same_id_" + which)
             if not ordinary(step, op, tree):
                 return out
+        elif kind == "keepalive":
+            # the library's own keep-alive: what its ping thread does (announce the ping to the outstanding-ping queue, send it),
+            # answered by the server at once.  It is a request of the library, correlated like any other - and it must leave the
+            # application's outstanding requests alone
+            from yowsup.layers.protocol_iq import YowIqProtocolLayer
+            from yowsup.layers.protocol_iq.protocolentities import PingIqProtocolEntity
+            iql = None
+            for i in range(1, 6):
+                try:
+                    layer = rig.stack.getLayer(i)
+                except IndexError:
+                    break
+                for sub_ in getattr(layer, "sublayers", []) or []:
+                    if isinstance(sub_, YowIqProtocolLayer):
+                        iql = sub_
+            ping = PingIqProtocolEntity()
+            n_got = len(app.got)
+            n_log = len(app.log)
+            try:
+                iql.waitPong(ping.getId())
+                iql.sendIq(ping)
+                rig.inject(T.to_node(("iq", {"id": ping.getId(), "type": "result", "from": "s.whatsapp.net"}, None)))
+            except Exception as e:
+                out.fail("callbacks", "keepalive:raises:%s" % type(e).__name__, {"step": step, "error": repr(e)[:300]})
+                return out
+            special = True
+            out.label("keepalive_ping_answered")
+            if len(app.log) != n_log:
+                out.fail("callbacks", "keepalive:application_callback_invoked", {"step": step})
+                return out
         elif kind == "server_get":
             if op[1] is None or not issued:
                 tree = ("iq", {"id": "srv-%d" % step, "type": "get", "from": "s.whatsapp.net", "xmlns": "urn:xmpp:ping"}, None)
@@ -572,6 +602,8 @@ def script_strategy():
                 ops.append(["server_get", draw(st.one_of(st.none(), sel))])
             elif choice == 12:
                 ops.append(draw(st.sampled_from([["msg", 0], ["msg", 1], ["msg", 3], ["count"]])))
+            elif choice == 13 and draw(st.booleans()):
+                ops.append(["keepalive"])
             elif choice == 13:
                 ops.append(["ireply", draw(sel), draw(st.sampled_from(["result", "result", "result", "error"]))])
             else:
@@ -615,6 +647,18 @@ def media_strategy():
                      st.booleans())
 
 
+def _enum_keepalive():
+    """application pings outstanding while the library's own keep-alive ping is answered, for every order of the replies"""
+    res = {"t": "iq", "a": [["id", "x"], ["type", "result"], ["from", "s.whatsapp.net"]], "c": None}
+    err = {"t": "iq", "a": [["id", "x"], ["type", "error"], ["from", "s.whatsapp.net"]], "c": [{"t": "error", "a": [["code", "500"], ["text", "internal-server-error"]], "c": None}]}
+    for axolotl in (False, True):
+        yield {"sub": "history", "axolotl": axolotl, "ops": [["req", "PingIqProtocolEntity", [], {}], ["req", "PingIqProtocolEntity", [], {}], ["keepalive"],
+                                                           ["reply", 0, "result", res], ["reply", 1, "error", err], ["replay", 0]]}
+        yield {"sub": "history", "axolotl": axolotl, "ops": [["req", "PingIqProtocolEntity", [], {}], ["reply", 0, "result", res], ["keepalive"],
+                                                           ["req", "LastseenIqProtocolEntity", ["4915112345@s.whatsapp.net"], {}], ["keepalive"],
+                                                           ["reply", 1, "error", err]]}
+
+
 def plan(tier):
     quick = tier == "quick"
     strategies = [("histories", script_strategy(), 40 if quick else 3000), ("media_requests", media_strategy(), 3 if quick else 100),
@@ -623,7 +667,7 @@ def plan(tier):
         strategies.append(("kind:" + kind, single_kind_strategy(kind), 2 if quick else 40))
     return {
         "shards": 16,
-        "enumerations": [],
+        "enumerations": [("keepalive_between_application_requests", _enum_keepalive)],
         "strategies": strategies,
         "shrink": "hypothesis",
         "budget_s": 200 if quick else 1800,
